@@ -24,7 +24,7 @@ FUNCTIONS = ["AnsiFormatter.format/remove_format/add_style", "PlainFormatter.for
 PART = {}
 BOUNDS = {"quick": "messages = T1 <open i> T2 <open j> T3 </close j> T4 </close i> T5 with text pieces from a 6-piece menu (incl. '<', '>', newline, non-ASCII, 'a<b') and tags from {none, <info>, <b>, <fg=red;options=bold>, <zz> (unknown), <late> (added with add_style)}; "
                    "styles: 11 foreground x {none, red} background x 2^7 attributes through 3 routes; newline law: every reflected line-writing method x texts <= 3 chars over {x,space,e-acute,-}; indentation: 12 nesting shapes of depth <= 3, every amount in [0,4], every exit normal/exceptional",
-          "thorough": "11 x 11 backgrounds, T pieces at all 5 positions, nesting depth 4"}
+          "thorough": "11 x 11 backgrounds, 6 choices of the outer text pieces with both tags symbolic, nesting depth 4"}
 OUTSIDE = ["messages with unbalanced tags (the statement restricts to balanced ones)", "messages longer than the stated composition", "real tty streams"]
 STUBS = []
 ASSUMPTIONS = ["SGR codes of a style are compared as a set (the order of codes inside one escape sequence does not change the look)"]
@@ -309,8 +309,8 @@ def conditions(tier):
                                   "bounds": "T1=%r, T5=%r; T2,T3,T4 from %r; outer tag %s, inner tag any of %r; %s closing tags" % (
                                       TEXTS[3 if edges else 0], TEXTS[5 if edges else 0], TEXTS, TAGS[ti], TAGS, "short '</>'" if short else "named")})
     else:
-        for p0 in range(6):
-            for p4 in range(6):
+        for p0, p4 in [(0, 0), (3, 5), (1, 4), (4, 1), (5, 3), (2, 2)]:
+            if True:
                 for short in (False, True):
                     conds.append({"name": "message[T1=%d,T5=%d,%s]" % (p0, p4, "short" if short else "long"), "fn": message, "timeout": t, "part": {"p0": p0, "p4": p4, "ti": None, "short": short},
                                   "bounds": "T1=%r, T5=%r; inner pieces and both tags symbolic" % (TEXTS[p0], TEXTS[p4])})
